@@ -9,6 +9,9 @@ import (
 	"github.com/shopspring/decimal"
 )
 
+// the largest (absolute) decimal exponent accepted for a number in JSON, well beyond the range of a float64
+const maxJSONNumberExponent = 1000
+
 // JSONToXValue returns an X type from the given JSON
 func JSONToXValue(data []byte) XValue {
 	if len(data) == 0 {
@@ -39,6 +42,11 @@ func jsonTypeToXValue(data []byte, valType jsonparser.ValueType) XValue {
 	case jsonparser.Number:
 		decimalVal, err := decimal.NewFromString(string(data))
 		if err == nil {
+			// a number like 1e999999999 is only a few bytes of JSON, but any arithmetic or comparison with it means
+			// rescaling to a billion digits, so treat exponents beyond anything a real number needs as an error
+			if decimalVal.Exponent() > maxJSONNumberExponent || decimalVal.Exponent() < -maxJSONNumberExponent {
+				return NewXErrorf("number %s is out of range", string(data))
+			}
 			return NewXNumber(decimalVal)
 		}
 	case jsonparser.Boolean:
